@@ -1,8 +1,9 @@
-"""C06 — decided by the shared IRC-layer engine (checks/irc_common.py)."""
-from checks import irc_common
+"""C06 — decided by the shared IRC-layer engine (checks/irc_common.py) on the bare state machine and by the
+HTTP-level stage (checks/irc_http.py) on a complete single-node network: every entry goes through the real FSM.Apply of a complete node; a panic there ends the run and is reported."""
+from checks import irc_http
 
 LEVEL = "model_checking"
 
 
 def run(ctx):
-    irc_common.report(ctx, "C06")
+    irc_http.run_check(ctx, "C06")
